@@ -70,3 +70,122 @@ Theorem C11_stop_leaves_nothing : forall caps i qs, fresh_inits i (init_q caps) 
             numRegs (nth_node (q_net (run_q i (init_q caps) qs)) j) = 0.
 Proof. exact stop_leaves_nothing. Qed.
 Print Assumptions C11_stop_leaves_nothing.
+
+(* ---- several hosts over one network, with pair creation (Qasm/TeardownX.v, Qasm/TeardownNet.v) --------------------------------
+   nst = one Model-V network + one NetQASM host per node + the per-socket deques of delivered, unclaimed halves.
+   Actions: AInstr i q (any instruction / init / stop of host i), ACreate (create-and-keep of one pair towards another
+   node: EprGate.cmd_epr_keep + delivery to the peer's deque + mapping of the kept half), ARecv (poll: a delivered half is
+   entered into qubitList and mapped).  `cleans` excludes exactly: a pair creation refused AFTER a temporary exists (the
+   known defect C11:epr-temporaries, C11_stop_restores_refuted_failed_pair in Properties/C08.v), binding a half to a
+   virtual address that is not free, and initialising an application id that still has a unit module. *)
+From SQ Require Import Net.Handles Qasm.EprGate Qasm.TeardownX Qasm.TeardownNet Qasm.TeardownNetExamples.
+
+(* the one-host invariant is the special case "no unclaimed halves" of the generalised one *)
+Theorem C11_tinv_is_tinvx : forall i s, tinv i s -> tinvx i [] s.
+Proof. exact tinv_is_tinvx. Qed.
+Print Assumptions C11_tinv_is_tinvx.
+
+(* every instruction of host i (failing ones included) keeps host i's invariant -- node i holds exactly qubitList's qubits
+   and the unclaimed halves -- and does not touch the handle list of any other node *)
+Theorem C11_host_invariant_and_frame : forall i ex s q, tinvx i ex s ->
+  tinvx i ex (fst (fst (exec i s q))) /\
+  forall j, j <> i -> hn (nth_node (q_net (fst (fst (exec i s q)))) j) = hn (nth_node (q_net s) j).
+Proof. exact xexec. Qed.
+Print Assumptions C11_host_invariant_and_frame.
+
+(* the global invariant (every host's invariant over the shared network, nothing but application qubits in any qubitList)
+   is kept by every clean action of any host, hence holds after every clean history *)
+Theorem C11_net_invariant : forall s x, ninv s -> clean s x -> ninv (nstep s x).
+Proof. exact nstep_ninv. Qed.
+Print Assumptions C11_net_invariant.
+
+Theorem C11_net_invariant_reachable : forall xs s, ninv s -> cleans s xs -> ninv (nrun s xs).
+Proof. exact nrun_ninv. Qed.
+Print Assumptions C11_net_invariant_reachable.
+
+Theorem C11_net_is_reachable : forall caps xs, reachable (n_net (nrun (ninit caps) xs)).
+Proof. exact nrun_reachable. Qed.
+Print Assumptions C11_net_is_reachable.
+
+(* the population clause for N hosts: after ANY clean history of host-level actions over N hosts (instructions incl.
+   allocations, frees, gates between halves simulated elsewhere, measurements, failing instructions, pair creations
+   towards other hosts, receipts, stops, any number of generations): once every application on every host has been
+   stopped and every delivered half was claimed, no node holds a qubit, simulates a qubit or keeps a register *)
+Theorem C11_net_stop_leaves_nothing : forall caps xs,
+  let s := nrun (ninit caps) xs in
+  cleans (ninit caps) xs ->
+  (forall i, i < length caps -> h_units (host_at s i) = []) ->
+  n_pend s = [] ->
+  forall j, virt (nth_node (n_net s) j) = [] /\ sims (nth_node (n_net s) j) = [] /\
+            regs (nth_node (n_net s) j) = [] /\ numRegs (nth_node (n_net s) j) = 0.
+Proof. exact net_stop_leaves_nothing. Qed.
+Print Assumptions C11_net_stop_leaves_nothing.
+
+(* halves handed to another node are not destroyed by the creator's teardown: nothing host i executes changes the
+   qubits another node holds; in particular a stop of the creator's application *)
+Theorem C11_instr_keeps_other_nodes : forall s i q, ninv s -> i < length (n_hosts s) ->
+  forall j, j <> i -> hn (nth_node (n_net (nstep s (AInstr i q))) j) = hn (nth_node (n_net s) j).
+Proof. exact instr_keeps_other_nodes. Qed.
+Print Assumptions C11_instr_keeps_other_nodes.
+
+Theorem C11_stop_keeps_peer_halves : forall caps xs i app coins,
+  let s := nrun (ninit caps) xs in
+  cleans (ninit caps) xs -> i < length caps ->
+  forall j, j <> i -> held (n_net (nstep s (AInstr i (QStopApp app coins)))) j = held (n_net s) j /\
+                      hn (nth_node (n_net (nstep s (AInstr i (QStopApp app coins)))) j) = hn (nth_node (n_net s) j).
+Proof. exact stop_keeps_peer_halves. Qed.
+Print Assumptions C11_stop_keeps_peer_halves.
+
+(* at every moment node j holds exactly |qubitList of host j| + |halves delivered to j and not yet claimed| qubits *)
+Theorem C11_node_population : forall caps xs j,
+  let s := nrun (ninit caps) xs in
+  cleans (ninit caps) xs -> j < length (n_hosts s) ->
+  held (n_net s) j = length (h_qlist (host_at s j)) + length (pend_at (n_pend s) j).
+Proof. exact node_population. Qed.
+Print Assumptions C11_node_population.
+
+(* non-vacuity: the repeater on three hosts, two generations (see Qasm/TeardownNetExamples.v): the history is clean, every
+   stop completes, after the creator's stop node 1 still holds both halves, at the end every unit module is gone and no
+   half is unclaimed -- so every node is empty *)
+Theorem C11_net_example :
+  cleans (ninit caps3) repeater /\
+  (forall i, i < length caps3 -> h_units (host_at (nrun (ninit caps3) repeater) i) = []) /\
+  n_pend (nrun (ninit caps3) repeater) = [] /\
+  populations (nrun (ninit caps3) gen1) = [(1, 0, 0, 0); (2, 4, 1, 1); (1, 0, 0, 0)] /\
+  populations (nrun (ninit caps3) (gen1 ++ [stop0])) = [(0, 0, 0, 0); (2, 3, 1, 1); (1, 0, 0, 0)] /\
+  populations (nrun (ninit caps3) repeater) = [(0, 0, 0, 0); (0, 0, 0, 0); (0, 0, 0, 0)].
+Proof.
+  exact (conj repeater_clean (conj (proj1 repeater_idle) (conj (proj2 repeater_idle)
+        (conj repeater_mid (conj repeater_creator_stops_first repeater_all_empty_computed))))).
+Qed.
+Print Assumptions C11_net_example.
+
+(* the hypothesis "every delivered half was claimed" cannot be dropped: a half nobody polls for stays on the receiving node
+   (and its register on the creator's node) after every application has stopped *)
+Theorem C11_unclaimed_half_stays :
+  cleans (ninit [(4, 5); (4, 5)]) unclaimed_history /\
+  nrun_res (ninit [(4, 5); (4, 5)]) unclaimed_history = [RDone None; RDone None; RDone None; RDone None; RDone None] /\
+  map h_units (n_hosts (nrun (ninit [(4, 5); (4, 5)]) unclaimed_history)) = [[]; []] /\
+  length (n_pend (nrun (ninit [(4, 5); (4, 5)]) unclaimed_history)) = 1 /\
+  populations (nrun (ninit [(4, 5); (4, 5)]) unclaimed_history) = [(0, 1, 1, 1); (1, 0, 0, 0)].
+Proof. exact unclaimed_half_stays. Qed.
+Print Assumptions C11_unclaimed_half_stays.
+
+(* what `clean` excludes is the known defect: the creation refused by a full receiver is not clean *)
+Theorem C11_failed_creation_is_not_clean :
+  ~ clean (nrun (ninit [(4, 5); (0, 5)]) [AInstr 0 (QInitApp 0 2)]) (ACreate 0 0 0 [0; 1] 1 true 0).
+Proof. exact failed_creation_is_not_clean. Qed.
+Print Assumptions C11_failed_creation_is_not_clean.
+
+(* a receive-deque entry stores the virtual NUMBER of the delivered half (as the code does); the lookup by number at poll time
+   (remote_get_virtual_ref: first virtual qubit of the node with that number) returns the very qubit that was delivered,
+   which the node still holds and no qubitList of its host refers to *)
+From SQ Require Import Qasm.PerNodeNum.
+Theorem C11_pending_lookup_faithful : forall caps xs,
+  let s := nrun (ninit caps) xs in
+  cleans (ninit caps) xs ->
+  forall nd sk num hd, In (nd, sk, num, hd) (n_pend s) ->
+    hid_of_num (nth_node (n_net s) nd) num = Some hd /\ In hd (hn (nth_node (n_net s) nd)) /\
+    forall p, plookup p (h_qlist (host_at s nd)) <> Some hd.
+Proof. exact pending_lookup_faithful. Qed.
+Print Assumptions C11_pending_lookup_faithful.
